@@ -55,8 +55,9 @@ func mkShape(kind, method string) shape {
 	case "status":
 		t.Generates = []Glob{{false, "out.txt"}}
 		t.Outputs = []string{"out.txt"}
-		t.Status = []string{"flag.ok"}
-		init = append(init, FileInit{"flag.ok", "ok", 5})
+		// two status entries; the operations remove / restore the FIRST one: every entry must hold
+		t.Status = []string{"flag.ok", "flag2.ok"}
+		init = append(init, FileInit{"flag.ok", "ok", 5}, FileInit{"flag2.ok", "ok", 6})
 	case "dir":
 		t.Dir = "newdir"
 		t.NCmds = 1
@@ -66,6 +67,10 @@ func mkShape(kind, method string) shape {
 		// two generates entries: removing only one of them must trigger a run
 		t.Generates = []Glob{{false, "out.txt"}, {false, "out2.txt"}}
 		t.Outputs = []string{"out.txt", "out2.txt"}
+	case "deps":
+		// a dep regenerates the source src/g.txt from spec.txt (not a source) before the check
+		t.DepSpec, t.DepDst = "spec.txt", "src/g.txt"
+		init = append(init, FileInit{"spec.txt", "S1", 5})
 	case "subcall":
 		// the first command calls a child whose precondition is `test -f guard.flag` (not a source)
 		t.SubGuard = "guard.flag"
@@ -125,6 +130,7 @@ var (
 	aForceKill1        = inv("force", "kill", 1)
 	aForceDeclined     = inv("force", "promptno", 0)
 
+	aEditSpec aop = func(i int, sh shape) Op { return Op{Kind: "write", P: "spec.txt", C: fmt.Sprintf("s%d", i)} }
 	aGuardOff aop = func(i int, sh shape) Op { return Op{Kind: "remove", P: "guard.flag"} }
 	aGuardOn  aop = func(i int, sh shape) Op { return Op{Kind: "write", P: "guard.flag", C: "g"} }
 
@@ -154,11 +160,14 @@ func alphabet(prop, kind string) []aop {
 			al[8] = aRmGen
 		}
 		if kind == "plain" {
-			// the exhaustively enumerated shape: kill@1 is covered by the other shapes and the directed histories
-			al = []aop{aEdit, aRunOk, aRunFail0, aRunFailL, aKill0, aForceFail, aListJSON, aDry}
+			// the exhaustively enumerated shape: kill@1 and fail@0 are covered by the other shapes and the directed histories
+			al = []aop{aEdit, aRunOk, aRunFailL, aKill0, aForceFail, aListJSON, aDry}
 		}
 		if kind == "subcall" {
 			return []aop{aEdit, aRunOk, aForceOk, aDry, aGuardOff, aGuardOn}
+		}
+		if kind == "deps" {
+			return []aop{aEdit, aEditSpec, aRunOk, aRunFailL, aKill1, aForceOk, aDry}
 		}
 		if kind == "inst" {
 			// two instances of one definition: runs of either, a parent calling both, edits
@@ -174,6 +183,8 @@ func alphabet(prop, kind string) []aop {
 			return []aop{aEdit, aRemove, aTouch, aRunOk, aForceOk, aRmGen, aRmGen2}
 		case "subcall":
 			return []aop{aEdit, aRunOk, aForceOk, aGuardOff, aGuardOn}
+		case "deps":
+			return []aop{aEdit, aEditSpec, aTouch, aRunOk, aForceOk}
 		case "status":
 			al = append(al, aRmGen, aFlagOff, aFlagOn)
 		case "plain":
@@ -251,12 +262,12 @@ func plans(prop, tier string) []plan {
 	}
 	switch prop {
 	case "C04":
-		return []plan{{"plain", full, false}, {"prompt", part, true}, {"gen", part, true}, {"collide", 1, true}, {"label", 1, true}, {"inst", part, true}, {"subcall", part, true}}
+		return []plan{{"plain", full, false}, {"prompt", part, true}, {"gen", part, true}, {"collide", 1, true}, {"label", 1, true}, {"inst", part, true}, {"subcall", part, true}, {"deps", part, true}}
 	case "C05":
-		return []plan{{"gen", full, false}, {"plain", part, true}, {"status", part, true}, {"gen2", part, true}}
+		return []plan{{"gen", full, false}, {"plain", part, true}, {"status", part, true}, {"gen2", part, true}, {"deps", part, true}}
 	default:
 		return []plan{{"plain", full, false}, {"dir", part, true}, {"gen", part, true},
-			{"silent-task", part, true}, {"silent-cmd", part, true}, {"silent-file", part, true}, {"subcall", part, true}}
+			{"silent-task", part, true}, {"silent-cmd", part - 1, true}, {"silent-file", part - 1, true}, {"subcall", part, true}}
 	}
 }
 
@@ -319,6 +330,10 @@ func Exhaustive(prop, tier string, shard, shards int) []*Case {
 			emit("directed", sh, []Op{aRunOk(0, sh), aRmGen(1, sh), aRunOk(2, sh)})
 			emit("directed", sh, []Op{aRunOk(0, sh), aRmGen2(1, sh), aRunOk(2, sh)})
 			emit("directed", sh, []Op{aRunOk(0, sh), aRmGen(1, sh), aRmGen2(2, sh), aRunOk(3, sh)})
+			// deps: steady state, then the dep's input changes: the task must run at the new fingerprint
+			sh = mkShape("deps", m)
+			emit("directed", sh, []Op{aRunOk(0, sh), aRunOk(1, sh), aEditSpec(2, sh), aRunOk(3, sh), aRunOk(4, sh)})
+			emit("directed", sh, []Op{aRunOk(0, sh), aEditSpec(1, sh), aRunFailL(2, sh), aRunOk(3, sh), aEditSpec(4, sh), aDry(5, sh), aRunOk(6, sh)})
 			// a failing sub-call in a normal / forced run is a failing command: the record must go
 			sh = mkShape("subcall", m)
 			emit("directed", sh, []Op{aRunOk(0, sh), aEdit(1, sh), aGuardOff(2, sh), aRunOk(3, sh), aGuardOn(4, sh), aRunOk(5, sh), aRunOk(6, sh)})
@@ -348,7 +363,7 @@ func Exhaustive(prop, tier string, shard, shards int) []*Case {
 
 // Random draws a longer history over the union of the alphabets of a random shape.
 func Random(prop string, r *rand.Rand) *Case {
-	kinds := []string{"plain", "gen", "prompt", "status", "dir", "collide", "label", "gen2", "inst", "subcall"}
+	kinds := []string{"plain", "gen", "prompt", "status", "dir", "collide", "label", "gen2", "inst", "subcall", "deps"}
 	if prop == "C12" {
 		kinds = []string{"plain", "gen", "dir", "status", "collide", "silent-task", "silent-cmd", "silent-file", "subcall"}
 	}
